@@ -9,6 +9,7 @@ static int offered_bad, partial_pending[4], took[4];
 #ifdef VF_REAL
 #include <stdio.h>
 #include <unistd.h>
+#include <stdlib.h>
 static u8 rb[VF_FILEMAX + 1]; static u32 rlen; static char path[64];
 #define FB rb
 #define FLEN rlen
@@ -22,7 +23,7 @@ static void mkfile(const char *prefix, u32 nfix) {
   u32 n = (u32)vf_nd64(); VF_REQUIRE(n <= VF_FILEMAX && n >= nfix); FLEN = n;
   for (u32 i = 0; i < VF_FILEMAX; i++) { u8 c = vf_nd8(); FB[i] = i < nfix ? (u8)prefix[i] : c; }
 #ifdef VF_REAL
-  snprintf(path, sizeof path, "/tmp/vf_c14_%d.sol", (int)getpid());
+  { const char *td = getenv("VF_TMP"); snprintf(path, sizeof path, "%s/vf_c14_%d.sol", td ? td : "/tmp", (int)getpid()); }      /* VF_TMP: the check's scratch directory (removed at the end of the run) */
   FILE *f = fopen(path, "wb"); fwrite(rb, 1, rlen, f); fclose(f);
 #else
   vf_fopen_fails = 0;
@@ -139,7 +140,7 @@ void h_read_sol_skel(void) {
   for (u32 i = 0; i < NP; i++) put("#\n");
   u32 po = FLEN; put("objno # #\n"); u32 objd = FB[po + 6] - '0', coded = FB[po + 8] - '0';
 #ifdef VF_REAL
-  snprintf(path, sizeof path, "/tmp/vf_c14_%d.sol", (int)getpid());
+  { const char *td = getenv("VF_TMP"); snprintf(path, sizeof path, "%s/vf_c14_%d.sol", td ? td : "/tmp", (int)getpid()); }      /* VF_TMP: the check's scratch directory (removed at the end of the run) */
   { FILE *f = fopen(path, "wb"); fwrite(rb, 1, rlen, f); fclose(f); }
 #else
   vf_fopen_fails = 0;
